@@ -514,6 +514,9 @@ func (tree *MutableTree) LoadVersion(targetVersion int64) (int64, error) {
 	tree.lastSaved = iTree.clone()
 
 	if !tree.skipFastStorageUpgrade {
+		// the uncommitted changes of the replaced working tree are gone, and so is their overlay
+		tree.unsavedFastNodeAdditions = &sync.Map{}
+		tree.unsavedFastNodeRemovals = &sync.Map{}
 		// Attempt to upgrade
 		if _, err := tree.enableFastStorageAndCommitIfNotEnabled(); err != nil {
 			return 0, err
